@@ -11,7 +11,7 @@ CHECKS = {
  "C03": ("reference model (double-double documented formulas, condition-number gate) over bounded-exhaustive + proptest (incl. tiny price units) + ultra-long streams (>2^16, >2^24 inputs) + libFuzzer campaign (thorough) + identity-event stage (clone / clone_from into a used target / serde round trip applied mid-stream under the same oracle) + reset-segment stage + Default-built instances",
          "Each oscillator compared with its documented formula evaluated from scratch in double-double at every step whose condition number is <= 1e6; exhaustive over small scalar and bar alphabets for periods 1..=5, sampled to 512 on grid-valued and free positive prices with close independent of (high+low)/2.", "4/C03"),
  "C04": ("differential testing (reset instance vs fresh instance) over bounded-exhaustive histories + proptest histories with special values + counter-wrap history lengths + libFuzzer campaign (thorough) + continuations in other units and signs",
-         "All 22 indicators: after any generated history of next/reset (incl. NaN/inf/extreme values) and a final reset(), outputs on an independently drawn finite continuation are compared with a fresh instance, a fresh instance reset twice and a doubly reset instance; parameters/Display compared. Exhaustive for periods 1..=4 over a 5-letter history alphabet to depth 5/6; sampled to periods 256/2048.", "4/C04"),
+         "All 22 indicators: after any generated history of next/reset (incl. NaN/inf/extreme values) and a final reset(), outputs on an independently drawn finite continuation are compared with a fresh instance, a fresh instance reset twice and a doubly reset instance; parameters/Display compared. Exhaustive for periods 1..=4 over a 6-letter history alphabet to depth 5/7; sampled to periods 256/2048; window-less periods to usize::MAX.", "4/C04"),
  "C05": ("model-based testing (replay model: each instance = fresh instance fed its own subsequence, bit-exact, also on a fresh thread) over exhaustive interleavings + proptest + 16-thread stage + libFuzzer campaign (thorough) + exhaustive clone_from matrix (target history x source history) + reset() among the interleaved operations (replayed on the model) + predecessor / lock-step instances",
          "All 22 indicators: operations on original / clone / unrelated instance in every interleaving of short sequences (exhaustive) and long random ones; every output must be bit-identical to a fresh instance fed only the inputs addressed to that instance. A 16-thread stage compares concurrent with sequential runs of distinct instances. Real OS schedules are not enumerated.", "4/C05"),
  "C06": ("round-trip differential (bincode serialize/deserialize at every checkpoint, chained, bytes moved directly / through io::Read / framed between other values; plus a second format, serde_json text and serde_json::Value, wherever the state is representable in it) over bounded-exhaustive histories + proptest + very large windows (4 097 .. 66 000 slots) + libFuzzer campaign (thorough)",
@@ -27,7 +27,7 @@ CHECKS = {
  "C11": ("reference predicate on constructor verdicts/accessors/Display/Default; exhaustive enumeration of period arguments + proptest later histories + long lives with a reset before every power-of-two call count",
          "Every single-period constructor for 0..=4096, all tuples over 0..=24 for MACD/PPO/SlowStochastic, boundary periods up to usize::MAX for allocation-free arguments, special multipliers; built with overflow checks. Default vs new(documented defaults) compared on generated streams.", "4/C11"),
  "C12": ("robustness testing: catch_unwind around every call, deterministic sweeps of every ring state (periods 1..=64 and 14 structural larger ones, 8 special-value schedules) + >2^16 ring turns + proptest op sequences + libFuzzer campaign (thorough); overflow checks and debug assertions on + round-trip-and-continue operation, tie-heavy inputs, windows of 2^16 slots and more",
-         "All 22 indicators x every period 1..=64 x 6 special-value schedules x a reset at every ring phase, each for 3p+3 calls plus clone/serialize/Display/Debug; random sequences for periods to 4096. A hang is reported as inconclusive (exit 2).", "4/C12"),
+         "All 22 indicators x every period 1..=64 x 8 special-value schedules x a reset at every ring phase, each for 3p+3 calls plus clone/serialize/Display/Debug; random sequences for periods to 4096. A hang is reported as inconclusive (exit 2).", "4/C12"),
  "C13": ("reference model (double-double recomputation of the current window) at sampled steps of long generated streams (grid of regimes + periodic saw-tooth and periodic-spike stages + proptest) + identity-event stage (clone / clone_from into a used target / serde round trip applied mid-stream under the same oracle) + Default-built instances",
          "Uninterrupted streams of 2e5 (quick) / 2e6 (thorough) inputs per configuration in a three-decade band under random-walk, alternating-extreme, spike, plateau and saw-tooth regimes; SMA, WMA, SD, BB, MAD, CCI, MFI, MIN, MAX checked against recomputation at about 300 sampled steps and at the end; variance sign checked at every step.", "4/C13"),
  "C14": ("metamorphic testing (scale by 2^k, arbitrary scale, shift, mirror) on twin runs (scalar and bar path mixed on both twins), proptest + identity-event stage (clone / clone_from into a used target / serde round trip applied mid-stream under the same oracle)",
@@ -39,7 +39,7 @@ CHECKS = {
  "C17": ("differential testing (full history vs bare suffix) over exhaustive prefix/suffix splits + proptest with 1e6x spikes and exact zeros in the prefix + libFuzzer campaign (thorough) + identity-event stage (clone / clone_from into a used target / serde round trip applied mid-stream under the same oracle)",
          "12 windowed indicators: instance fed prefix+suffix vs fresh instance fed only the suffix, compared from the w-th suffix element on (exact for comparison-only indicators, the property's tolerances otherwise); exhaustive for periods 1..=3 over {1,2,1e6}; sampled to period 300 with the exact boundary (extra = 0) forced often.", "4/C17"),
  "C18": ("resource invariant: bincode serialized size and live heap bytes (counting global allocator) vs the parameter bound, grid of single-series shapes, two-series bar shapes (highs and lows following patterns of their own) and extreme price units + proptest + reset schedules",
-         "serde build: all 22 indicators x 8 periods x 5 stream shapes (monotone shapes are the worst case for a retained history) for 1e5 (quick) / 1e6 (thorough) inputs: serialized size sampled at every early step and at checkpoints, net heap growth and peak after warm-up measured per thread.", "4/C18"),
+         "serde build: all 22 indicators x 8 periods x 12 single-series stream shapes (monotone, alternating, flat, random, staircases with ties, floor/ceiling touches, tick grid, zero volume, periodic outliers), 25 two-series bar shapes, exact-zero tick walks, a compounding sweep through hundreds of binades, extreme price units, reset schedules and instances restored from their own bytes, for 1e5 (quick) / 1e6 (thorough) inputs: serialized size sampled at every early step and at checkpoints, net heap growth and peak after warm-up measured per thread.", "4/C18"),
 }
 
 def main():
